@@ -53,6 +53,12 @@ theorem run_noMutation (σ : Schedule) (p : Prog) (s : St) (h : mutates p = fals
     split
     · exact ih s h
     · rfl
+  | orElse p q ihp ihq =>
+    simp only [mutates, Bool.or_eq_false_iff] at h
+    simp only [run]
+    split
+    · exact ihp s h.1
+    · exact ihq s h.2
 
 theorem run_cannotFail (σ : Schedule) (p : Prog) (s : St) (h : canFail p = false) :
     (run σ p s).2 = true := by
@@ -74,6 +80,12 @@ theorem run_cannotFail (σ : Schedule) (p : Prog) (s : St) (h : canFail p = fals
   | attempt b ih =>
     simp only [run]
     split <;> rfl
+  | orElse p q ihp ihq =>
+    simp only [canFail] at h
+    simp only [run]
+    split
+    · rfl
+    · exact ihq s h
 
 /-- **Err ⇒ unchanged**, for every failure schedule -/
 theorem clean_unchanged (σ : Schedule) (p : Prog) (s : St) (hc : clean p = true)
@@ -104,6 +116,20 @@ theorem clean_unchanged (σ : Schedule) (p : Prog) (s : St) (hc : clean p = true
   | attempt b ih =>
     simp only [run] at hf
     split at hf <;> simp at hf
+  | orElse p q ihp ihq =>
+    simp only [clean] at hc
+    simp only [run] at hf ⊢
+    split at hf
+    · simp at hf
+    · rename_i hnok
+      simp only [hnok]
+      exact ihq s hc hf
+
+/-- a fallback chain succeeds with the first alternative that succeeds, started from the ORIGINAL
+state: earlier failed alternatives leave no trace -/
+theorem orElse_first_failed (σ : Schedule) (p q : Prog) (s : St)
+    (hp : (run σ p s).2 = false) : run σ (.orElse p q) s = run σ q s := by
+  simp only [run, hp, Bool.false_eq_true, ↓reduceIte]
 
 /-- behaviour is a function of the state: after a failed (hence state-preserving) operation any
 later program behaves exactly as if the failed call had never been made -/
@@ -116,6 +142,9 @@ theorem later_ops_same (σ σ' : Schedule) (p q : Prog) (s : St) (hc : clean p =
 theorem insert_clean : clean dtInsertGuarded = true ∧ clean dtInsertBare = true := by decide
 theorem remove_clean : clean dtRemoveGuarded = true := by decide
 theorem repair_clean : clean repairPublic = true := by decide
+/-- the advanced entry point (repair, or else robust repair, or else heuristic rebuild into a
+separate candidate) is clean as well -/
+theorem repairAdvanced_clean : clean repairAdvanced = true := by decide
 
 /-- the pinned removal returns `Err` after mutating at exactly these failpoints -/
 theorem remove_pinned_dirty :
@@ -141,6 +170,8 @@ theorem editFlip_witness :
 `clean_unchanged` is satisfiable) and the state indeed stays put -/
 example : (run (fun n => n == "dt_insert.delaunay_check") dtInsertGuarded [7]) = ([7], false) := by decide
 example : (run (fun n => n == "flip.after_wiring") repairPublic [7]) = ([7], false) := by decide
+example : (run (fun n => n == "flip.after_wiring" || n == "dt_insert.repair") repairAdvanced [7]) = ([7], false) := by decide
+example : (run (fun _ => false) repairAdvanced [7]) = ([12, 11, 10, 12, 11, 10, 7], true) := by decide
 example : (run (fun n => n == "tri_remove.after_remove_cells") dtRemoveGuarded [7]) = ([7], false) := by decide
 
 end DM.C03
